@@ -5,6 +5,7 @@
 # License: http://snmplabs.com/pysmi/license.html
 #
 import os
+import sys
 import time
 import struct
 try:
@@ -104,6 +105,9 @@ class PyPackageSearcher(AbstractSearcher):
             pyData = self.__loader.get_data(f)
             if pyData[:4] == PY_MAGIC_NUMBER:
                 pyData = pyData[4:]
+                if sys.version_info[:2] >= (3, 7):
+                    # PEP 552: a flags word precedes the source mtime
+                    pyData = pyData[4:]
                 pyTime = struct.unpack('<L', pyData[:4])[0]
                 debug.logger & debug.flagSearcher and debug.logger(
                     'found %s, mtime %s' % (f, time.strftime("%a, %d %b %Y %H:%M:%S GMT", time.gmtime(pyTime))))
